@@ -13,7 +13,6 @@ E_INPUT = 12  # AntismashInputError (not in common.ERR)
 SPEC_OFFSET = 10
 FN_NAMES = {1: "pre_process_sequences", 2: "generate_unique_id", 3: "fix_record_name_id", 4: "_sanitise_id_value",
             5: "add_cds_feature history", 6: "_shorten_ids contig number"}
-KNOWN_OVERFLOW = "contig_number_overflow"
 
 
 def err(exc):
@@ -122,7 +121,8 @@ class Impl:
         return enc_str(self.cds_module._sanitise_id_value(text))  # pylint: disable=protected-access
 
     def contig_number(self, idx, text):
-        """ observed through fix_record_name_id: the number inside the shortened *name* of a record """
+        """ observed through fix_record_name_id: the number inside the shortened *name* of a record
+            (a number of 13 or more digits is not kept in the name; contig_case does not generate one) """
         record = self.Record("ACGT")
         record.id = "x"
         record.name = text
@@ -186,7 +186,8 @@ ILLEGAL = '''!"#$%&()*+,:;=>?@[]^`'{|}/ '''
 LETTERS = "abcdgnotfl"
 STEMS = ["contig12", "scaffold3 x", "NZ_ABCDEFGH012345.1", "NZ_AMZN01000079.1", "c7 ", "abcdefghijklmnopqrst", "ab", "a:b",
          "x_0", "x", "", ":", "my contig1234567 of a long name", "scaf12345", "caffold007", "ontg5", "onti6.", "x c99999 y",
-         "x c100000 y", "contig99999", "contig100000", "Contig_12", "abcdefghijklmnopq", "abcdefghijklmnop",
+         "x c100000 y", "contig99999", "contig100000", "Contig_12",
+         "contig123456789012 and more", "contig1234567890123 and more", "scaffold0000000000000000012 x", "abcdefghijklmnopq", "abcdefghijklmnop",
          "abcdefghijkl:mnopqrs", "NC_0123456789ABCDE.12", "a.b.1", "abcdefghijklmnopqrs.1", "abcdefghijklmnopqr..1"]
 
 
@@ -205,8 +206,9 @@ class Gen:
         if r < 0.35:
             return rng.choice(STEMS) + self.word(0, 3)
         if r < 0.45:
-            # a contig/scaffold pattern with a number of 1-7 digits, possibly followed by a word character
-            number = str(rng.choice([0, 7, 42, 99999, 100000, 123456, 1234567, rng.randint(0, 10 ** rng.randint(1, 7))]))
+            # a contig/scaffold pattern with a number of 1-14 digits, possibly followed by a word character
+            number = str(rng.choice([0, 7, 42, 99999, 100000, 123456, 1234567, rng.randint(0, 10 ** rng.randint(1, 7)),
+                                     10 ** 11, 10 ** 12 - 1, 10 ** 12, rng.randint(0, 10 ** rng.randint(8, 14))]))
             if rng.random() < 0.3:
                 number = "0" * rng.randint(1, 3) + number
             core = rng.choice(["contig", "cont", "ctg", "ont", "ontg", "onti", "scaffold", "scaf", "caff", "cafold", " c", "c", "xc",
@@ -288,7 +290,7 @@ class Gen:
     def fix_case(self):
         rng = self.rng
         rid = self.ident()
-        idx = rng.choice([1, 1, 2, 3, 12, 99999, 100000])
+        idx = rng.choice([1, 1, 2, 3, 12, 99999, 100000, 1234567, 10 ** 12 - 1, 10 ** 12, 10 ** 15])
         r = rng.random()
         name = rid if r < 0.5 else (self.ident() if r < 0.8 else rid[:10])
         orig = rng.choice([None, None, None, "", "old", rid])
@@ -307,8 +309,11 @@ class Gen:
 
     def contig_case(self):
         rng = self.rng
-        text = self.ident() if rng.random() < 0.7 else self.word(0, 8) + rng.choice(["contig", "scaffold", " c", "ontig"]) + self.word(0, 8)
-        return rng.choice([1, 2, 17, 99999, 100000]), text + "x" * max(0, 17 - len(text))
+        while True:
+            text = self.ident() if rng.random() < 0.7 else self.word(0, 8) + rng.choice(["contig", "scaffold", " c", "ontig"]) + self.word(0, 8)
+            if longest_digit_run(text) <= 12:   # a longer number cannot be read back from the shortened name
+                break
+        return rng.choice([1, 2, 17, 99999, 100000, 123456789012]), text + "x" * max(0, 17 - len(text))
 
     def cds_case(self, impl):
         rng = self.rng
@@ -352,6 +357,27 @@ class Gen:
         return genes, calls
 
 
+def longest_digit_run(text):
+    best = run = 0
+    for char in text:
+        run = run + 1 if char.isdigit() else 0
+        best = max(best, run)
+    return best
+
+
+def count_shortened(chk, where, before, after):
+    """ which shape of _shorten_ids an over-long id or name ended in (the repaired class contig_number_overflow) """
+    if len(before) <= 16 or len(after) < 3 or not after.endswith(".."):
+        return
+    head = after[1:after.index("_")] if after.startswith("c") and "_" in after else ""
+    if head.isdigit() and len(head) > 5:
+        chk.count(f"{where}_shortened_number_of_6_to_12_digits")
+    elif head.isdigit():
+        chk.count(f"{where}_shortened_number_of_5_digits")
+    elif after[:-2] == "".join(c for c in before[:14] if c not in ILLEGAL):
+        chk.count(f"{where}_shortened_number_dropped")
+
+
 def describe(flat):
     fn = flat[1]
     try:
@@ -372,7 +398,7 @@ def describe(flat):
 
 RULE = ("fn1: lists of 1-8 (id, name) pairs through the real pre_process_sequences (serial, gene finding stubbed, both "
         "allow_long_headers): ids from stems/random words over small alphabets with illegal characters, contig/scaffold/cNNN "
-        "patterns with 1-7 digit numbers, versioned accessions around 16 characters, and ids derived from an earlier id of the "
+        "patterns with 1-14 digit numbers, versioned accessions around 16 characters, and ids derived from an earlier id of the "
         "same list (duplicate, illegal character inserted, stripped form, differing beyond the 16th character, its shortened "
         "c%05d form, its _0/_1 forms, its accession head); fn2 generate_unique_id with partly taken counters and max_length at the "
         "boundary; fn3 fix_record_name_id with sets holding the derived forms; fn4 _sanitise_id_value; fn5 histories of "
@@ -400,7 +426,17 @@ def generate(chk, impl, total):
     corpus = [
         (1, (0, [("a:b", "a:b"), ("ab", "ab")])),                       # F25 (fixed): strip_after_unique
         (1, (0, [("ab", "ab"), ("a:b", "a:b")])),
-        (1, (0, [("my contig1234567 of a long name", "n")])),           # F26 (known): contig_number_overflow
+        # F26 (fixed): contig_number_overflow - contig numbers / record indices of six and more digits, id and name
+        (1, (0, [("my contig1234567 of a long name", "n")])),
+        (1, (0, [("n", "my contig1234567 of a long name")])),
+        (1, (0, [("contig100000 xxxxxxxxxx", "contig100000 xxxxxxxxxx")])),
+        (1, (0, [("contig123456789012 and more", "scaffold1234567890123 and more")])),
+        (1, (0, [("contig1234567890123 and more", "x c99999999999999999999 y")])),
+        (1, (0, [("my contig1234567 of a long name", "n"), ("c1234567_my co..", "n"), ("my contig1234567 of", "n")])),
+        (3, (False, 100000, "abcdefghijklmnopqrstu", "abcdefghijklmnopqrstu", None, ["abcdefghijklmnopqrstu"])),
+        (3, (False, 10 ** 12 - 1, "abcdefghijklmnopqrstu", "abcdefghijklmnopqrstu", None, ["abcdefghijklmnopqrstu"])),
+        (3, (False, 10 ** 12, "abcdefghijklmnopqrstu", "abcdefghijklmnopqrstu", None, ["abcdefghijklmnopqrstu"])),
+        (3, (False, 10 ** 12, "abcdefghijklmnopqrstu", "n", None, ["abcdefghijklmnopqrstu", "abcdefghijklmn.."])),
         (1, (0, [("x", "x"), ("x", "x"), ("x_0", "x_0")])),
         (1, (0, [("abcdefghijklmnopqrstu", "a"), ("abcdefghijklmnopqrstv", "a"), ("c00001_abcdefg..", "a")])),
         (1, (0, [("::", "n")])),
@@ -454,6 +490,10 @@ def generate(chk, impl, total):
                     chk.count("fn1_illegal_characters_in_input")
                 if any(len(rid) > 16 for rid, _ in pairs):
                     chk.count("fn1_long_input_id")
+                if not allow:
+                    for (rid, name), (oid, oname, _) in zip(pairs, result):
+                        count_shortened(chk, "fn1", rid, oid)
+                        count_shortened(chk, "fn1", name, oname)
             spec_idx.append(len(cases))
             sample = {"function": FN_NAMES[1], "allow_long_headers": bool(allow), "records": pairs, "implementation": result or out}
         elif fn == 2:
@@ -476,6 +516,8 @@ def generate(chk, impl, total):
                 nontrivial = new_id != rid
                 if nontrivial:
                     chk.count("fn3_id_changed")
+                if not allow:
+                    count_shortened(chk, "fn3", rid, new_id)
         elif fn == 4:
             flat = [PROP, 4] + enc_str(args[0])
             out = impl.sanitise(args[0])
@@ -502,29 +544,18 @@ def generate(chk, impl, total):
                 out = [-1000 - err(exc)]
             nontrivial = out[0] != idx
             if out[0] >= 100000:
-                chk.count("fn6_six_digit_number")
+                chk.count("fn6_six_or_more_digit_number")
         cases.append(flat)
         impl_outs.append(out)
         chk.note_case(flat, nontrivial, sample)
     return cases, impl_outs, spec_idx
 
 
-def has_long_number(pairs_flat):
-    """ does some string of the case contain a run of six or more digits (or is the record index that large)? """
-    run = 0
-    for code in pairs_flat:
-        run = run + 1 if 48 <= code <= 57 else 0
-        if run >= 6:
-            return True
-    return False
-
-
 def check_spec(chk, cases, impl_outs, spec_idx):
     """ the property itself, evaluated in Gallina on the implementation's outputs """
     spec_cases = [[PROP, cases[i][1] + SPEC_OFFSET] + cases[i][2:] + impl_outs[i] for i in spec_idx]
     verdicts = common.run_driver(spec_cases)
-    known = {f["class"] for f in common.load_known_findings("C16") if f.get("status") == "known"}
-    names = ["all", "unique", "safe characters", "at most 16 characters", "original id", "has a name", "overflow shape"]
+    names = ["all", "unique", "safe characters", "at most 16 characters", "original id", "has a name"]
     for i, verdict in zip(spec_idx, verdicts):
         if verdict and verdict[0] == 1:
             chk.count("spec_holds")
@@ -533,16 +564,7 @@ def check_spec(chk, cases, impl_outs, spec_idx):
         if fn == 5:
             failed = ["names and locations pairwise distinct"]
         else:
-            failed = [n for n, v in zip(names, verdict) if v == 0] if len(verdict) == 7 else ["decode"]
-        if fn == 1 and failed == ["all", "at most 16 characters"] and has_long_number(cases[i][4:]):
-            # only the length clause fails, every over-long id/name has the shape c<6+ digits>_<at most 9 characters>
-            # (7th flag), the input holds a number of six or more digits, and implementation == model (checked by
-            # the correspondence): the recorded class
-            chk.count("finding_class_" + KNOWN_OVERFLOW)
-            if KNOWN_OVERFLOW in known:
-                chk.known("an id or name with a contig number of six or more digits is shortened to more than 16 "
-                          "characters (class contig_number_overflow)")
-                continue
+            failed = [n for n, v in zip(names, verdict) if v == 0] if len(verdict) == 6 else ["decode"]
         chk.violation("counterexample", f"{FN_NAMES[fn]}: the implementation's output violates the property ({', '.join(failed)})",
                       {"theorem_or_correspondence": "spec_flags on the implementation's output", "function": fn,
                        "flat": cases[i], "implementation": impl_outs[i], "spec_verdict": verdict,
